@@ -69,6 +69,7 @@ Lemma rebuild_eq : forall l nid tid sid rid ch,
   match search_from l sid 0 with
   | None => None
   | Some (i, e) =>
+      if s_nokey e then None else
       match rebuild_all l ch with
       | None => None
       | Some ns => Some (Node nid e i None ns)
@@ -77,6 +78,7 @@ Lemma rebuild_eq : forall l nid tid sid rid ch,
 Proof.
   intros l nid tid sid rid ch. cbn [rebuild].
   destruct (search_from l sid 0) as [[i e]|]; [|reflexivity].
+  destruct (s_nokey e); [reflexivity|].
   assert (E : forall cs,
     (fix go (cs : list tmarshal) : option (list tnode) :=
        match cs with
@@ -145,10 +147,12 @@ Qed.
 
 (* ---------- well-placed nodes -------------------------------------------------------- *)
 
-(* the node's server is what the roster search finds for its id, at the recorded index *)
+(* the node's server is what the roster search finds for its id, at the recorded index,
+   and it has a public key *)
 Inductive placed (l : list server) : tnode -> Prop :=
 | placed_node : forall id srv i g ch,
     search_from l (s_id srv) 0 = Some (i, srv) ->
+    s_nokey srv = false ->
     Forall (placed l) ch ->
     placed l (Node id srv i g ch).
 
@@ -170,14 +174,17 @@ Qed.
 Lemma placed_of_nodup : forall (l : list server) n,
   NoDup (map s_id l) ->
   (forall x, In x (flat n) -> nth_error l (n_ridx x) = Some (n_srv x)) ->
+  (forall x, In x (flat n) -> s_nokey (n_srv x) = false) ->
   placed l n.
 Proof.
-  intros l n Hnd. induction n as [id srv i g ch IH] using tnode_ind2. intros Hall.
+  intros l n Hnd. induction n as [id srv i g ch IH] using tnode_ind2. intros Hall Hkey.
   constructor.
   - specialize (Hall (Node id srv i g ch)). cbn in Hall.
     rewrite (search_from_nodup l i srv 0 Hnd (Hall (or_introl eq_refl))). f_equal. f_equal. lia.
-  - rewrite Forall_forall in IH |- *. intros c Hc. apply IH; [exact Hc|].
-    intros x Hx. apply Hall. apply flat_in_cons. right. exists c. auto.
+  - apply (Hkey (Node id srv i g ch)). left. reflexivity.
+  - rewrite Forall_forall in IH |- *. intros c Hc. apply IH; [exact Hc| |].
+    + intros x Hx. apply Hall. apply flat_in_cons. right. exists c. auto.
+    + intros x Hx. apply Hkey. apply flat_in_cons. right. exists c. auto.
 Qed.
 
 Lemma rebuild_all_map : forall l (ch : list tnode) (f : tnode -> tnode),
@@ -192,8 +199,8 @@ Qed.
 Lemma rebuild_copy : forall l n, placed l n -> rebuild l (copy_tree n) = Some (strip n).
 Proof.
   intros l n. induction n as [id srv i g ch IH] using tnode_ind2. intros Hp.
-  inversion Hp as [? ? ? ? ? Hs Hch]; subst.
-  cbn [copy_tree strip]. rewrite rebuild_eq, Hs.
+  inversion Hp as [? ? ? ? ? Hs Hk Hch]; subst.
+  cbn [copy_tree strip]. rewrite rebuild_eq, Hs, Hk.
   rewrite (rebuild_all_map l ch strip).
   - reflexivity.
   - rewrite Forall_forall in *. intros c Hc. apply IH; auto.
@@ -266,18 +273,20 @@ Proof.
   rewrite Nat.eqb_refl. cbn. rewrite (rebuild_copy _ _ Hp), with_aggs_strip. reflexivity.
 Qed.
 
-(* headline: roster ids pairwise distinct, every node on the member recorded in it *)
+(* headline: roster ids pairwise distinct, every node on the member recorded in it, and
+   these members have a public key (NewTree needs it for the aggregates) *)
 Theorem roundtrip : forall f06 n2 (t : stree) ro,
   t_ro t = Some ro ->
   NoDup (map s_id (r_list ro)) ->
   (forall x, In x (flat (t_root t)) -> nth_error (r_list ro) (n_ridx x) = Some (n_srv x)) ->
+  (forall x, In x (flat (t_root t)) -> s_nokey (n_srv x) = false) ->
   make_tree gadd f06 n2 (to_marshal t) (Some ro) =
     Ok (mkTree (t_id t) (Some ro) (with_aggs gadd (t_root t))) /\
   (aggs_computed (t_root t) -> make_tree gadd f06 n2 (to_marshal t) (Some ro) = Ok t) /\
   (forall x, In x (flat (with_aggs gadd (t_root t))) -> n_agg x = Some (agg_of gadd x)).
 Proof.
-  intros f06 n2 t ro Hro Hnd Hall.
-  pose proof (roundtrip_placed f06 n2 t ro Hro (placed_of_nodup _ _ Hnd Hall)) as E.
+  intros f06 n2 t ro Hro Hnd Hall Hkey.
+  pose proof (roundtrip_placed f06 n2 t ro Hro (placed_of_nodup _ _ Hnd Hall Hkey)) as E.
   split; [exact E|]. split.
   - intros Hagg. rewrite E. unfold aggs_computed in Hagg. rewrite Hagg.
     destruct t as [tid tro troot]. cbn in *. subst tro. reflexivity.
@@ -315,6 +324,7 @@ Theorem rebuild_sound : forall l m n,
 Proof.
   intros l m. induction m as [nid tid sid rid ch IH] using tm_ind2. intros n H.
   rewrite rebuild_eq in H. destruct (search_from l sid 0) as [[i e]|] eqn:Es; [|discriminate].
+  destruct (s_nokey e) eqn:Ek; [discriminate|].
   destruct (rebuild_all l ch) as [ns|] eqn:Er; [|discriminate]. inversion H; subst n. clear H.
   apply rebuild_all_inv in Er.
   pose proof (search_from_some _ _ _ _ _ Es) as (_ & _ & Hid & _).
@@ -324,7 +334,7 @@ Proof.
     destruct (Hc0 _ Hc) as [Hp He]. destruct (IHr IH') as [Hps Hes].
     split; [constructor; auto|]. cbn. rewrite He, Hes. reflexivity. }
   destruct Hboth as [Hps Hes]. split.
-  - constructor; [rewrite Hid; exact Es|exact Hps].
+  - constructor; [rewrite Hid; exact Es|exact Ek|exact Hps].
   - cbn [copy_tree norm]. rewrite Hid, Hes. reflexivity.
 Qed.
 
@@ -341,7 +351,7 @@ Proof.
   apply rebuild_sound in E as [Hp _].
   assert (Hp' : placed (r_list ro) (with_aggs gadd n)).
   { clear -Hp. induction n as [id srv i g ch IH] using tnode_ind2.
-    inversion Hp as [? ? ? ? ? Hs Hch]; subst. cbn [with_aggs]. constructor; [exact Hs|].
+    inversion Hp as [? ? ? ? ? Hs Hk Hch]; subst. cbn [with_aggs]. constructor; [exact Hs|exact Hk|].
     rewrite Forall_forall in *. intros c Hc. apply in_map_iff in Hc as (c0 & <- & Hc0). auto. }
   match goal with
   | |- make_tree _ _ _ (to_marshal ?x) _ = _ => rewrite (roundtrip_placed f06 n2 x ro eq_refl Hp')
@@ -350,23 +360,21 @@ Qed.
 
 (* ---------- which descriptions are refused ---------------------------------------------------------- *)
 
+(* every described node finds a member, and that member has a public key *)
 Fixpoint members_ok (l : list server) (m : tmarshal) : bool :=
   match m with
-  | TM _ _ sid _ ch => existsb (fun e => s_id e =? sid) l && forallb (members_ok l) ch
+  | TM _ _ sid _ ch =>
+      match search_from l sid 0 with
+      | Some (_, e) => negb (s_nokey e)
+      | None => false
+      end && forallb (members_ok l) ch
   end.
-
-Lemma search_from_existsb : forall (l : list server) sid k,
-  existsb (fun e => s_id e =? sid) l = match search_from l sid k with Some _ => true | None => false end.
-Proof.
-  induction l as [|x r IH]; intros sid k; cbn; [reflexivity|].
-  destruct (s_id x =? sid); cbn; [reflexivity|apply IH].
-Qed.
 
 Lemma rebuild_some_iff : forall l m,
   members_ok l m = true <-> exists n, rebuild l m = Some n.
 Proof.
   intros l m. induction m as [nid tid sid rid ch IH] using tm_ind2.
-  rewrite rebuild_eq. cbn [members_ok]. rewrite (search_from_existsb l sid 0).
+  rewrite rebuild_eq. cbn [members_ok].
   assert (Hch : forallb (members_ok l) ch = true <-> exists ns, rebuild_all l ch = Some ns).
   { induction IH as [|c r Hc _ IHr]; cbn.
     - split; eauto.
@@ -375,9 +383,11 @@ Proof.
       + intros [ns H]. destruct (rebuild l c); [|discriminate].
         destruct (rebuild_all l r); [|discriminate]. eauto. }
   destruct (search_from l sid 0) as [[i e]|]; cbn.
-  - rewrite Hch. split.
-    + intros [ns Hns]. rewrite Hns. eauto.
-    + intros [n H]. destruct (rebuild_all l ch); [eauto|discriminate].
+  - destruct (s_nokey e); cbn.
+    + split; [discriminate|intros [n H]; discriminate].
+    + rewrite Hch. split.
+      * intros [ns Hns]. rewrite Hns. eauto.
+      * intros [n H]. destruct (rebuild_all l ch); [eauto|discriminate].
   - split; [discriminate|intros [n H]; discriminate].
 Qed.
 
@@ -450,11 +460,12 @@ Hypothesis dec_enc_outer : forall x, dec_outer (enc_outer x) = Some x.
 Theorem bytes_roundtrip : forall f06 n2 (t : stree) ro,
   t_ro t = Some ro -> NoDup (map s_id (r_list ro)) ->
   (forall x, In x (flat (t_root t)) -> nth_error (r_list ro) (n_ridx x) = Some (n_srv x)) ->
+  (forall x, In x (flat (t_root t)) -> s_nokey (n_srv x) = false) ->
   aggs_computed (t_root t) ->
   from_bytes gadd f06 n2 (dec_tm (enc_tm (to_marshal t))) (Some ro) = Ok t.
 Proof.
-  intros f06 n2 t ro Hro Hnd Hall Hagg. rewrite dec_enc_tm. unfold from_bytes.
-  destruct (roundtrip f06 n2 t ro Hro Hnd Hall) as (_ & E & _). rewrite (E Hagg).
+  intros f06 n2 t ro Hro Hnd Hall Hkey Hagg. rewrite dec_enc_tm. unfold from_bytes.
+  destruct (roundtrip f06 n2 t ro Hro Hnd Hall Hkey) as (_ & E & _). rewrite (E Hagg).
   unfold aggs_computed in Hagg. rewrite Hagg. destruct t; reflexivity.
 Qed.
 
@@ -462,12 +473,13 @@ Qed.
 Theorem binary_roundtrip : forall f06 n2 (t : stree) ro,
   t_ro t = Some ro -> NoDup (map s_id (r_list ro)) ->
   (forall x, In x (flat (t_root t)) -> nth_error (r_list ro) (n_ridx x) = Some (n_srv x)) ->
+  (forall x, In x (flat (t_root t)) -> s_nokey (n_srv x) = false) ->
   aggs_computed (t_root t) ->
   binary_unmarshal gadd f06 n2
     (option_map (fun p => (dec_tm (fst p), snd p))
                 (dec_outer (enc_outer (enc_tm (to_marshal t), t_ro t)))) = Ok t.
 Proof.
-  intros f06 n2 t ro Hro Hnd Hall Hagg. rewrite dec_enc_outer. cbn. rewrite Hro.
+  intros f06 n2 t ro Hro Hnd Hall Hkey Hagg. rewrite dec_enc_outer. cbn. rewrite Hro.
   apply bytes_roundtrip; assumption.
 Qed.
 
@@ -534,9 +546,9 @@ End Proofs.
 
 (* ---------- concrete witnesses (keys = nat) -------------------------------------------------------------------- *)
 
-Definition sA : server nat := mkSrv 1 10 [].
-Definition sB : server nat := mkSrv 2 20 [].
-Definition sA' : server nat := mkSrv 1 30 [].      (* carries A's id, another key *)
+Definition sA : server nat := mkSrv 1 10 [] false.
+Definition sB : server nat := mkSrv 2 20 [] false.
+Definition sA' : server nat := mkSrv 1 30 [] false.      (* carries A's id, another key *)
 
 (* the hypotheses of the round trip are satisfiable *)
 Definition ex_ro : roster nat := mkRo 7 [sA; sB].
